@@ -674,7 +674,11 @@ def check_p2(ctx) -> None:
         impure = _impurities(f)
         is_method = f.cls is not None and f.args[:1] == ['self']
         if not impure and not is_method:
-            ctx.ok('P2', key, f.where, 'memoised pure function of value-hashable arguments')
+            shared = memoised_result_misuse(repo, f)
+            if shared is None:
+                ctx.ok('P2', key, f.where, 'memoised pure function of value-hashable arguments')
+            else:
+                ctx.bad('P2', key, shared[0], shared[1])
             continue
         if f.qualname in CACHE_ALLOW_IMPURE_METHODS and is_method:
             # identity-keyed: no __eq__/__hash__ on the receiver classes or on Model
@@ -694,6 +698,86 @@ def check_p2(ctx) -> None:
     ctx.analysed['memoised_functions'] = n_cache
     ctx.analysed['global_state_items'] = n
     ctx.floor('P2', n_cache, 12, 'memoised functions')
+
+
+ARRAY_PRODUCERS = {'array', 'asarray', 'zeros', 'ones', 'full', 'empty', 'linspace', 'arange', 'power', 'cumsum', 'concatenate', 'append',
+                   'add.accumulate', 'zeros_like', 'ones_like', 'copy', 'exp', 'sqrt', 'multiply', 'divide', 'interp', 'tile', 'repeat'}
+MUTATING_METHODS = {'append', 'extend', 'insert', 'pop', 'remove', 'sort', 'reverse', 'clear', 'update', 'fill', 'resize', 'put', 'itemset',
+                    'setdefault', 'popitem', 'partition', 'setfield', 'ito', 'ito_base_units'}
+
+
+def _returns_mutable(f) -> Optional[str]:
+    """why the value a function returns is a mutable container (None when it is not known to be one)"""
+    ann = norm(f.node.returns) if getattr(f.node, 'returns', None) is not None else ''
+    if any(t in ann for t in ('ndarray', 'list', 'List', 'dict', 'Dict', 'set', 'Set', 'DataFrame')):
+        return f'annotated -> {ann}'
+    from gxstat.inline import inline_sequential
+    for r in walk_no_nested(f.node):
+        if not isinstance(r, ast.Return) or r.value is None:
+            continue
+        v = inline_sequential(r.value, r)
+        for x in ast.walk(v):
+            if isinstance(x, (ast.List, ast.Dict, ast.Set, ast.ListComp, ast.DictComp, ast.SetComp)) and x is v:
+                return f'returns `{norm(v)[:60]}`'
+            if isinstance(x, ast.Call):
+                d = dotted_name(x.func) or ''
+                if d.startswith(('np.', 'numpy.')) and d.split('.', 1)[1] in ARRAY_PRODUCERS:
+                    return f'returns a numpy array (`{d}(...)`)'
+                if x is v and d.split('.')[-1] in MUTABLE_CTORS:
+                    return f'returns `{norm(v)[:60]}`'
+    return None
+
+
+def memoised_result_misuse(repo, f) -> Optional[Tuple[str, str]]:
+    """A memoised function hands every caller the *same* object.  If that object is mutable and a caller changes it in place - or
+    stores it where later code may (an attribute of the model) - the next call with the same arguments, in this or a later run of the
+    process, receives the changed object.  Returns (where, message) for the first such use, None when there is none."""
+    why = _returns_mutable(f)
+    if why is None:
+        return None
+    for g in repo.all_functions():
+        if not isinstance(g.node, (ast.FunctionDef, ast.AsyncFunctionDef)) or g is f:
+            continue
+        names = set()
+        for st in walk_no_nested(g.node):
+            if isinstance(st, (ast.Assign, ast.AnnAssign)) and getattr(st, 'value', None) is not None:
+                v = st.value
+                calls_f = isinstance(v, ast.Call) and (dotted_name(v.func) or '').split('.')[-1] == f.name
+                alias = isinstance(v, ast.Name) and v.id in names
+                if not (calls_f or alias):
+                    continue
+                for t in (st.targets if isinstance(st, ast.Assign) else [st.target]):
+                    if isinstance(t, ast.Name):
+                        names.add(t.id)
+                    elif isinstance(t, ast.Attribute):
+                        return (f'{g.module.rel}:{st.lineno}',
+                                f'{f.qualname} is memoised and {why}; {g.qualname} stores the shared object in `{norm(t)}`, where later code can '
+                                f'modify it in place: the next call with equal arguments (this run or a later one in the process) gets the modified object')
+        if not names:
+            continue
+        for st in walk_no_nested(g.node):
+            hit = None
+            if isinstance(st, ast.AugAssign):
+                b = st.target.value if isinstance(st.target, ast.Subscript) else st.target
+                if isinstance(b, ast.Name) and b.id in names:
+                    hit = st
+            elif isinstance(st, ast.Assign):
+                for t in st.targets:
+                    if isinstance(t, ast.Subscript) and isinstance(t.value, ast.Name) and t.value.id in names:
+                        hit = st
+            elif isinstance(st, ast.Call):
+                if isinstance(st.func, ast.Attribute) and st.func.attr in MUTATING_METHODS and isinstance(st.func.value, ast.Name) \
+                        and st.func.value.id in names:
+                    hit = st
+                for kw in st.keywords:
+                    if kw.arg == 'out' and isinstance(kw.value, ast.Name) and kw.value.id in names:
+                        hit = st
+            if hit is not None:
+                return (f'{g.module.rel}:{hit.lineno}',
+                        f'{f.qualname} is memoised and {why}; {g.qualname} modifies the shared object in place (`{norm(hit)[:80]}`): the next call '
+                        f'with equal arguments - in this run or a later run of the same process - receives the modified object, so the result '
+                        f'depends on the history of the process')
+    return None
 
 
 def _is_field_call(v: ast.Call) -> bool:
@@ -791,6 +875,8 @@ def check_p3(ctx) -> None:
             if isinstance(a, (ast.List, ast.ListComp, ast.Dict)) or \
                     (isinstance(a, ast.Call) and (dotted_name(a.func) or '').split('.')[-1] in ('list', 'dict', 'copy', 'deepcopy', 'array', 'zeros')):
                 n_listargs += 1
+                if d.kind == 'listParameter':
+                    ctx.ok('P3', f'{d.owner}.{d.attr}/{k}-fresh-literal', d.where, 'list built anew by every constructor call')
                 continue
             if d.kind == 'listParameter' and isinstance(a, (ast.Name, ast.Attribute)):
                 n_listargs += 1
@@ -1052,6 +1138,62 @@ def check_key_injective(ctx, f, key_def: ast.Assign, rule: str) -> None:
                 todo.append(ds[0].value)
     texts = [(c, rt) for rt in roots for c in ast.walk(rt.value) if isinstance(c, ast.Call) and isinstance(c.func, ast.Attribute)
              and c.func.attr in ('as_text', 'read', 'read_text')]
+    # hash(<request object>) hashes what the object's own __hash__ returns: follow it
+    ann = {a.arg: norm(a.annotation) for a in f.node.args.args if a.annotation is not None}
+    for rt in roots:
+        for c in ast.walk(rt.value):
+            if not (isinstance(c, ast.Call) and dotted_name(c.func) == 'hash' and len(c.args) == 1 and isinstance(c.args[0], ast.Name)):
+                continue
+            cname = ann.get(c.args[0].id, '').split('.')[-1]
+            ci = ctx.repo.find_cls(cname, f.module) if cname else None
+            hm = ctx.repo.resolve_method(ci, '__hash__') if ci is not None else None
+            if hm is None:
+                continue
+            tcalls = [x for x in ast.walk(hm.node) if isinstance(x, ast.Call) and isinstance(x.func, ast.Attribute)
+                      and x.func.attr in ('as_text', 'read', 'read_text', 'readlines')]
+            # a method of the class that itself reads the text and returns something derived from it is a transformation of the text
+            readers: Set[str] = set()
+            changed = True
+            while changed:
+                changed = False
+                for mname, m in ci.methods.items():
+                    if mname in readers or mname in ('as_text', '__hash__'):
+                        continue
+                    for x in ast.walk(m.node):
+                        if isinstance(x, ast.Call) and isinstance(x.func, ast.Attribute) and \
+                                (x.func.attr in ('as_text', 'read', 'read_text', 'readlines') or
+                                 (isinstance(x.func.value, ast.Name) and x.func.value.id == 'self' and x.func.attr in readers)):
+                            readers.add(mname)
+                            changed = True
+                            break
+            for x in ast.walk(hm.node):
+                if isinstance(x, ast.Call) and isinstance(x.func, ast.Attribute) and isinstance(x.func.value, ast.Name) and \
+                        x.func.value.id == 'self' and x.func.attr in readers:
+                    ctx.bad(rule, f'{ci.name}.__hash__/text-hashed-unmodified', f'{hm.module.rel}:{x.lineno}',
+                            f'the cache key is hash({c.args[0].id}), and {ci.name}.__hash__ hashes `{norm(x)}`, a digest of the input text made by '
+                            f'{ci.name}.{x.func.attr}: two inputs that differ only in what that method discards or merges (the order of two occurrences '
+                            f'of one parameter, a unit token after the number, spellings of one number) share a key, and the second request is '
+                            f'answered with the first one\'s result', fact='text reaches hash() unmodified')
+            for x in tcalls:
+                cur, p_, culprit = x, parent(x), None
+                ret = None
+                while p_ is not None and p_ is not hm.node:
+                    if isinstance(p_, ast.Return):
+                        ret = p_
+                        break
+                    if isinstance(p_, ast.Tuple) or (isinstance(p_, ast.Call) and cur in p_.args and (dotted_name(p_.func) or '') in INJECTIVE_WRAPPERS) or \
+                            (isinstance(p_, ast.Attribute) and p_.attr in INJECTIVE_METHODS) or \
+                            (isinstance(p_, ast.Call) and isinstance(p_.func, ast.Attribute) and p_.func.attr in INJECTIVE_METHODS and p_.func.value is cur):
+                        cur, p_ = p_, parent(p_)
+                        continue
+                    culprit = p_
+                    break
+                ctx.check(culprit is None and ret is not None, rule, f'{ci.name}.__hash__/text-hashed-unmodified', f'{hm.module.rel}:{x.lineno}',
+                          f'the cache key is hash({c.args[0].id}), and {ci.name}.__hash__ transforms the input text '
+                          f'(`{norm(culprit)[:70] if culprit is not None else "text not part of the returned value"}`) before hashing it: two inputs that '
+                          f'differ only in what the transformation discards (order of two occurrences of one parameter - the last one governs; a unit '
+                          f'token; layout the reader is sensitive to) share a key, and the second request is answered with the first one\'s result',
+                          fact='text reaches hash() unmodified')
     for c, rt in texts:
         cur = c
         p = parent(cur)
